@@ -693,6 +693,8 @@ fn tag(asyncfl: bool, sync_tag: &'static str) -> &'static str {
         "C02" => "C02|C16",
         "C03" => "C03|C16",
         "C19" => "C19|C16",
+        "C04" => "C04|C16",
+        "X-trylock" => "X-trylock",
         _ => "C16",
     }
 }
@@ -941,8 +943,12 @@ fn run_inner2<F: Fl>(h: &ObsHistory, soft: &mut Option<Div>) -> Result<OFacts, D
                     // (whether a second reader gets in while a read guard is alive is not part of any
                     // property: only recorded)
                     let _ = tr_ok;
-                    if v != m.value || !tw_failed {
-                        bail!("C01", "step {step} read guard: value {v:?} (model {:?}), try_write failed = {tw_failed}, try_read ok = {tr_ok}", m.value);
+                    if v != m.value {
+                        bail!("C01", "step {step} read guard: value {v:?}, the value most recently stored is {:?}", m.value);
+                    }
+                    if !tw_failed {
+                        // "while a read guard is alive no write completes" is C04's clause
+                        bail!("C04", "step {step} read guard: try_write succeeded while a read guard is alive");
                     }
                     Res::Value(v)
                 }
@@ -952,7 +958,8 @@ fn run_inner2<F: Fl>(h: &ObsHistory, soft: &mut Option<Div>) -> Result<OFacts, D
                     }
                     let s = &w.owners[hh % w.owners.len()];
                     match F::s_try_guards(s, Hk::new(*v)) {
-                        None => bail!("C01", "step {step}: try_read/try_write failed although no guard is held"),
+                        // (no property says that try_read/try_write must succeed on a free lock)
+                        None => bail!("X-trylock", "step {step}: try_read/try_write failed although no guard is held"),
                         Some((r, prev)) => {
                             if r != m.value || prev != m.value {
                                 bail!("C01", "step {step} {op:?}: try_read saw {r:?}, set through try_write returned {prev:?}, stored value {:?}", m.value);
